@@ -330,7 +330,7 @@ def rule_d(ctx):
                                       for m in po[0]["methods"] if m["name"] == "partial_cmp")
     ctx.check(ok_derived, "C19-D", "StyleOrigin:derived-PartialOrd", so["span"], "StyleOrigin",
               "origin comparison must be the derived (declaration order) one")
-    if ctx.config != "default":
+    if ctx.has_css:
         # inline style: author origin + inline specificity
         ms = F.one("css::StyleData::merge_computed_style")
         cs = b.calls(lambda cd, t: cd == ms.id)
@@ -372,7 +372,7 @@ def rule_e(ctx):
             ctx.violation("C19-E", key, t["span"], b.id,
                           "this merge ignores the declaration's own importance (passes %s): an `!important` "
                           "declaration is treated as normal" % sorted(a for a in imp if a[0] in ("int", "const"))[:2])
-    ctx.floor("C19-E", "merge_computed_style call sites", n, 1 if ctx.config == "default" else 4)
+    ctx.floor("C19-E", "merge_computed_style call sites", n, 1 if (not ctx.has_css) else 4)
     # maybe_update callers pass `important` through unchanged
     mu = F.one("WithSpec::<T>::maybe_update")
     for (b, bb, t) in F.call_sites(lambda cd, t: cd == mu.id):
